@@ -371,6 +371,7 @@ def c10(case, rec=None):
     return multi
 
 
+EXTRA_PROFILES = {"C02": ["fanout", "slices", "fanout", "wide"], "C04": ["fanout", "lutmix"], "C06": ["fanout", "wide"], "C15": ["wide", "slices"]}
 ORACLES = {"C17": c17, "C02": c02, "C04": c04, "C06": c06, "C15": c15, "C10": c10}
 
 
@@ -379,6 +380,9 @@ def _run(ctx, arg, rec):
     profile = PROFILE.get(prop, "npu")
     if prop == "C10" and shard % 2:
         profile = "cascade"
+    if prop in EXTRA_PROFILES and shard % 4 == 3:
+        # a quarter of the shards walks through the other network families (copies that cannot be bypassed, read/write offsets, table mixes, CPU/NPU mixes, reshapes)
+        profile = EXTRA_PROFILES[prop][(shard // 4) % len(EXTRA_PROFILES[prop])]
     strat = e2e.case_strategy(profile, small_arena=(prop in ("C02", "C03") and shard % 2 == 0) or prop == "C10")
     run_hypothesis(rec, strat, lambda case, r: ORACLES[prop](case, r), n, sub_seed(ctx.seed, prop, "e2e", shard))
 
